@@ -26,8 +26,11 @@ KINDS = ['number', 'percent', 'money', 'duration', 'time', 'date', 'unit', 'base
 
 def readable_currencies():
     out = []
+    with_alias = set(lex.currency_alias().values())
     for code, info in lex.currencies().items():
-        if lex.read_currency(info['symbol']) is not None:
+        # the printed symbol is a reader key, or the currency has a configured alias (the statement: "a currency that has a configured
+        # symbol or alias"; DKK prints 'kr.' and is typed back through its alias 'kr')
+        if lex.read_currency(info['symbol']) is not None or code in with_alias:
             out.append(code)
     return sorted(out)
 
@@ -73,6 +76,12 @@ def run_shard(ctx):
                     text = tt
             elif kind == 'date':
                 text, _ = spell(rng, lang, gen_date(rng, today), today)
+                if rng.random() < 0.12 and 'year' in words:
+                    # a date of the first centuries as the result of date arithmetic (typed directly, '1 jan 70' may mean another year)
+                    import datetime as _dt
+                    base = _dt.date(rng.randint(2000, 2030), rng.randint(1, 12), rng.randint(1, 28))
+                    text, _ = spell(rng, lang, base, today, force_year=True)
+                    text = '%s - %d %s' % (text, base.year - rng.choice([1, 5, 9, 10, 33, 70, 99, 100, 476, 999]), rng.choice(words['year']))
             elif kind == 'unit':
                 u = rng.choice(units)
                 _, x = gen_value(rng, 2)
@@ -122,7 +131,7 @@ def run_shard(ctx):
                 code = first['v']['code'].lower()
                 info = lex.currencies()[code]
                 sym = info['symbol']
-                if lex.read_currency(sym) != code:
+                if lex.read_currency(sym) not in (None, code):
                     detail = 'money:symbol-reads-as-another-currency'
                 elif info['symbolOnLeft'] and sym.isalpha():
                     detail = 'money:letters-on-the-left'
